@@ -155,7 +155,6 @@ impl Column {
         let key = self.base_block_key.clone().block(block_id);
 
         let mut block_header = BlockMeta::default();
-        let mut do_verify_checksum = false;
 
         // support multiple I/O backend
         let block =
@@ -188,9 +187,23 @@ impl Column {
                     // TODO(chi): we should invalidate cache item after a RowSet has been compacted.
                     // self.block_cache.insert(key, block.clone()).await;
 
-                    // need to verify checksum when read from disk
-                    do_verify_checksum = true;
-                    block
+                    // Verify the checksum *before* the block can enter the cache: a corrupted block
+                    // that is cached first would be served without any check by every later read.
+                    let block = block?;
+                    if block.len() < BLOCK_META_SIZE {
+                        return Err(TracedStorageError::decode(
+                            "block is smaller than header size",
+                        ));
+                    }
+                    let mut header = &block[block.len() - BLOCK_META_SIZE..];
+                    let mut meta = BlockMeta::default();
+                    meta.decode(&mut header)?;
+                    verify_checksum(
+                        meta.checksum_type,
+                        &block[..block.len() - BLOCK_META_CHECKSUM_SIZE],
+                        meta.checksum,
+                    )?;
+                    Ok(block)
                 })
                 .await?;
 
@@ -201,14 +214,6 @@ impl Column {
         }
         let mut header = &block[block.len() - BLOCK_META_SIZE..];
         block_header.decode(&mut header)?;
-
-        if do_verify_checksum {
-            verify_checksum(
-                block_header.checksum_type,
-                &block[..block.len() - BLOCK_META_CHECKSUM_SIZE],
-                block_header.checksum,
-            )?;
-        }
 
         Ok((block_header, block.slice(..block.len() - BLOCK_META_SIZE)))
     }
